@@ -629,3 +629,56 @@ def c06(run):
 
 
 MODES["C06"] = "total"
+
+
+# ------------------------------------------------------------------ C17
+@check("C17")
+def c17(run):
+    run.rule = ("spec/ImportRules.tla: (rules) every list of <=3 (thorough 4) rewrite rules out of a catalogue of ten (capturing, OR-lists, AND-lists over "
+                "payee and category, payee overrides, pending flags, a rule that only matches the payee as rewritten by an earlier rule) x 12 records "
+                "(4 payees x category absent/matching/other), each imported as a debit and a credit row; (layers) every list of <=3 configuration "
+                "documents out of eight (nested, overlapping, equally long, non-matching paths; scalars set or not) x 4 file paths; "
+                "non-trivial = at least two rules / two documents")
+    run.assumptions += ["regular expressions are abstracted to a finite Match(pattern, text) relation; the harness checks that relation against the regex engine (scenario `table`)",
+                        "AND-lists have at most one capturing field (the statement does not order fields inside an element; C13 owns that question)",
+                        "the fold is observed through the CSV importer (payee, code, counter account, pending mark of the counter posting); Camt/Viseca share Extractor::extract"]
+    nd, n, st = tlc_gen("MCImportRules.tla", "ImportRules_table.cfg", "C17-table", workers=1, timeout=600)
+    run.add_model(st)
+    feed(run, "rules", nd)
+    for sc, cfg in [("layers", "ImportRules_layers.cfg"), ("rules", "ImportRules_rules.cfg" if run.tier == "quick" else "ImportRules_rulesT.cfg")]:
+        nd, n, st = tlc_gen("MCImportRules.tla", cfg, "C17-%s" % sc, workers=8, timeout=2400)
+        st["scenario"] = sc
+        run.add_model(st)
+        feed(run, "rules", nd)
+    run.exhaustive = True
+
+
+MODES["C17"] = "rules"
+
+
+# ------------------------------------------------------------------ C16
+@check("C16")
+def c16(run):
+    run.rule = ("spec/ImportCsv.tla: statements of 1-2 rows (thorough 3) with amounts {-2.00, 1.00, 10.50, -1,234.50} (thousands separators, quoted cells), "
+                "optional rate 2 / 0.5 with consistent secondary amount, a note, Unicode payee; configurations: asset/liability x amount or credit/debit columns "
+                "x layout by index / label / template x delimiter x skipped head lines x date format x row_order x balance column x conversion "
+                "(none, extract/compute x price_of_secondary/price_of_primary, disabled) x opening balance 0 / 500; non-trivial = every statement")
+    run.assumptions += ["amounts and rates are of the form 2^a*5^b so computed secondary amounts are exact; values are compared numerically (scale is C15's)",
+                        "the counter account and its pending mark are C17's and are not compared here",
+                        "the balance column is generated for asset accounts only; charges are outside this specification (DESIGN section 9)",
+                        "the default conversion (commodity.conversion) is used, so rows without a rate are booked without conversion"]
+    cfg = "ImportCsv_quick.cfg" if run.tier == "quick" else "ImportCsv_thorough.cfg"
+    if run.tier == "quick":
+        nd, n, st = tlc_gen("MCImportCsv.tla", cfg, "C16-gen", workers=8, timeout=2400)
+    else:
+        nd, n, st = tlc_gen("MCImportCsv.tla", cfg, "C16-gen", simulate={"num": 150000, "depth": 2}, seed=run.seed, timeout=3000)
+    run.add_model(st)
+    feed(run, "csv", nd)
+    if run.tier == "thorough":
+        nd, n, st = tlc_gen("MCImportCsv.tla", "ImportCsv_quick.cfg", "C16-gen-q", workers=8, timeout=2400)
+        run.add_model(st)
+        feed(run, "csv", nd)
+    run.exhaustive = True
+
+
+MODES["C16"] = "csv"
